@@ -12,8 +12,9 @@ Generated     quick: one libFuzzer process per target, -runs=N -seed=S (fixed wo
               interesting ones are merged (-merge=1) into work/C10/merged/<target>. Nothing is written to corpus/.
 Crash         the input is classified from the log: VERIF-PANIC sig=… (panic location, in-target oracle signature),
               ASan report kind + innermost SDK frame, libFuzzer timeout / out-of-memory / deadly signal. The time budget is
-              CPU time of one input measured in-target (VERIF-SLOW); an input that trips libFuzzer's wall-clock alarm
-              (12x the budget) is re-run alone and counts only if it is slow by CPU time or still does not return. Signatures of open entries of known_findings.json -> KNOWN-FINDING; everything else ->
+              user CPU time of one input measured in-target (VERIF-SLOW: 10 s optimised build, 30 s ASan build); such
+              an input, or one that trips libFuzzer's wall-clock alarm (120 s), is re-run alone on both builds and
+              counts only if it exceeds a budget again or still does not return. Signatures of open entries of known_findings.json -> KNOWN-FINDING; everything else ->
               replays/C10/<target>/last-<sha1>.bin + VIOLATION.
 """
 import glob
@@ -60,13 +61,17 @@ def sha1(b):
     return hashlib.sha1(b).hexdigest()
 
 
-def env_for(extra=None):
+# user-CPU budget of one input, enforced in-target: TIMEOUT on the optimised build, 3x on the ASan + debug build
+CPU_LIMIT = {"asan": 3 * TIMEOUT, "rel": TIMEOUT}
+
+
+def env_for(extra=None, build="asan"):
     e = dict(os.environ)
     e["ASAN_OPTIONS"] = "detect_odr_violation=0:detect_leaks=0:symbolize=1"
     e["VERIF_FUZZ_STATS_DIR"] = f"{WORK}/stats"
     e["VERIF_ROOT_DIR"] = ROOT
     e["RUST_BACKTRACE"] = "0"
-    e["VERIF_FUZZ_CPU_LIMIT"] = str(TIMEOUT)
+    e["VERIF_FUZZ_CPU_LIMIT"] = str(CPU_LIMIT[build])
     if extra:
         e.update(extra)
     return e
@@ -138,9 +143,12 @@ def classify(log_text, target):
     if m:
         kind = "oracle" if "-oracle:" in m.group(1) else "panic"
         return kind, m.group(1), f"panic at {m.group(2)}: {m.group(3)[:300]}"
+    m = re.search(r"VERIF-ALLOC sig=(\S+) size=(\d+)", log_text)
+    if m:
+        return "oom", m.group(1), f"single allocation request of {int(m.group(2)) >> 20} MB while executing one input (limit 256 MB, input <= 1 MiB)"
     m = re.search(r"VERIF-SLOW sig=(\S+) cpu_s=(\S+)", log_text)
     if m:
-        return "slow", m.group(1), f"one input used {m.group(2)} s of CPU time (limit {TIMEOUT} s)"
+        return "slow", m.group(1), f"one input used {m.group(2)} s of user CPU time (budget {CPU_LIMIT['rel']} s optimised / {CPU_LIMIT['asan']} s ASan build)"
     idx = next((i for i, l in enumerate(lines) if "ERROR: " in l and ("libFuzzer" in l or "Sanitizer" in l)), None)
     if idx is None:
         return None
@@ -258,7 +266,7 @@ class Driver:
 
     def replay_proc(self, target, build, files, strict=False):
         cmd = [f"{BIN[build]}/{target}"] + LIMITS + [f"-artifact_prefix={WORK}/artifacts/{target}/"] + files
-        p = Proc(f"replay-{build}-{target}", cmd, self.log_path(f"replay-{build}-{target}"), env_for({"VERIF_FUZZ_STRICT": "1"} if strict else None), WORK)
+        p = Proc(f"replay-{build}-{target}", cmd, self.log_path(f"replay-{build}-{target}"), env_for({"VERIF_FUZZ_STRICT": "1"} if strict else None, build), WORK)
         p.target, p.build, p.files, p.kind = target, build, files, "replay"
         return p
 
@@ -297,22 +305,30 @@ class Driver:
                              "kind": kind, "signature": sig, "what": desc, "log": log, "phase": phase})
 
     def confirm_timeout(self, cr):
-        """Re-run an input that tripped the wall-clock alarm alone with a 10x longer alarm: it counts when the
-        in-target CPU clock says >= TIMEOUT s (VERIF-SLOW) or when it still does not return (a real hang)."""
+        """An input that exceeded the in-target CPU budget (VERIF-SLOW) or tripped libFuzzer's wall-clock alarm is
+        re-run alone on both builds with a 5x longer alarm. It counts when one of the two runs exceeds its CPU
+        budget again (30 s ASan / 10 s optimised, user time) or still does not return (a real hang)."""
         wall_limit = WALL * 5
-        cmd = [f"{BIN[cr['build']]}/{cr['target']}", f"-timeout={wall_limit}", "-rss_limit_mb=2048", "-detect_leaks=0",
-               f"-artifact_prefix={WORK}/artifacts/confirm-", cr["input"]]
-        t0 = time.time()
-        log = self.log_path(f"confirm-timeout-{cr['target']}")
-        with open(log, "wb") as f:
-            try:
-                rc = subprocess.call(cmd, stdout=f, stderr=subprocess.STDOUT, env=env_for(), cwd=WORK, timeout=wall_limit + 120)
-            except subprocess.TimeoutExpired:
-                rc = -9
-        txt = open(log, errors="replace").read()
-        slow = re.search(r"VERIF-SLOW sig=\S+ cpu_s=(\S+)", txt)
-        cr["confirm"] = {"wall_s": round(time.time() - t0, 1), "rc": rc, "cpu_s": slow.group(1) if slow else None, "log": log}
-        return bool(slow) or rc == -9 or "libFuzzer: timeout" in txt
+        res = {}
+        confirmed = False
+        for b in ("asan", "rel"):
+            cmd = [f"{BIN[b]}/{cr['target']}", f"-timeout={wall_limit}", "-rss_limit_mb=2048", "-detect_leaks=0",
+                   f"-artifact_prefix={WORK}/artifacts/confirm-", cr["input"]]
+            t0 = time.time()
+            log = self.log_path(f"confirm-{b}-{cr['target']}")
+            with open(log, "wb") as f:
+                try:
+                    rc = subprocess.call(cmd, stdout=f, stderr=subprocess.STDOUT, env=env_for(None, b), cwd=WORK, timeout=wall_limit + 120)
+                except subprocess.TimeoutExpired:
+                    rc = -9
+            txt = open(log, errors="replace").read()
+            slow = re.search(r"VERIF-SLOW sig=\S+ cpu_s=(\S+)", txt)
+            ms = re.search(r"^Executed \S+ in (\d+) ms", txt, re.M)
+            res[b] = {"wall_s": round(time.time() - t0, 1), "rc": rc, "cpu_s": slow.group(1) if slow else None, "executed_ms": int(ms.group(1)) if ms else None}
+            if slow or rc == -9 or "libFuzzer: timeout" in txt:
+                confirmed = True
+        cr["confirm"] = res
+        return confirmed
 
     # -- generated tier --------------------------------------------------------------------------------
     def fuzz_proc(self, target, corpus_dir, seed, runs=None, secs=None, tag="fuzz", max_len=MAX_LEN):
@@ -361,9 +377,9 @@ class Driver:
         # decide now whether the campaign may continue behind this crash: only behind known findings and
         # behind timeouts that do not reproduce
         cont = False
-        if cr["kind"] == "timeout":
+        if cr["kind"] in ("timeout", "slow"):
             if not self.confirm_timeout(cr):
-                cr["discarded"] = "timeout not reproduced when run alone (machine load)"
+                cr["discarded"] = "time budget not exceeded when run alone (machine load)"
                 cont = True
         if not cont and known_entry(self.known, cr["signature"]) is not None:
             cont = True
@@ -516,10 +532,10 @@ def judge(d):
     for cr in d.crashes:
         if cr.get("discarded"):
             continue
-        if cr["kind"] == "timeout" and "confirm" not in cr:
+        if cr["kind"] in ("timeout", "slow") and "confirm" not in cr:
             if not d.confirm_timeout(cr):
-                cr["discarded"] = "timeout not reproduced when run alone (machine load)"
-                d.notes.append(f"timeout of {cr['input']} not reproduced alone: {cr['confirm']}")
+                cr["discarded"] = "time budget not exceeded when run alone (machine load)"
+                d.notes.append(f"slow input {cr['input']} not reproduced alone: {cr['confirm']}")
                 continue
         e = known_entry(d.known, cr["signature"])
         if e is not None:
@@ -594,7 +610,7 @@ def finish(d, t_start):
             "evaluations": int(evaluations),
             "distinct_nontrivial": int(distinct),
             "rule": ("Inputs: coverage-guided mutation (libFuzzer, ASan build with debug assertions and overflow checks, -len_control=0, -max_len=1 MiB, "
-                     f"time budget {TIMEOUT} s CPU per input measured in-target, wall-clock alarm {WALL} s, -rss_limit_mb=1024, -malloc_limit_mb=256) of a seed corpus of minimised fixtures, synthesised containers of 16 kinds "
+                     f"time budget per input in user CPU seconds measured in-target: {CPU_LIMIT['rel']} s on the optimised build, {CPU_LIMIT['asan']} s on the ASan build, candidates re-run alone; wall-clock alarm {WALL} s, -rss_limit_mb=1024, -malloc_limit_mb=256) of a seed corpus of minimised fixtures, synthesised containers of 16 kinds "
                      "(plain / fake store / real signed store / signed), bare manifest stores, sidecars, builder and ingredient archives, through nine in-process "
                      "targets (fuzz_read under all format hints, fuzz_store, fuzz_sidecar, fuzz_ingredient, fuzz_archive, fuzz_write, structure-aware fuzz_struct, "
                      "fuzz_store_mut with the C02 oracle, fuzz_store_rt with the C18 oracle), fresh Context per input (no network, 1 MB decompression limit). "
